@@ -45,8 +45,9 @@ class History:
         self.ncalls = 0; self.tags = set(); self.ops = {}
 
     def send(self, line, kind='c'):
+        self.script.append(line)            # recorded before it is sent: a command that kills the driver must be part of the replayed script
         rep = self.d.batch([line])[0]
-        self.script.append(line); self.replies.append(rep)
+        self.replies.append(rep)
         if rep.startswith('?ERR'): raise runner.HarnessError('%s -> %s' % (line[:200], rep[:200]))
         return rep
 
